@@ -80,6 +80,7 @@ def parseBits (s : String) : Option (Bool × Bool × Bool × Bool × Bool) :=
 def fifoGuard (s : St) (w : List String) : Bool :=
   match w with
   | ["open", _, name, _] => s.isFifo name
+  | ["openx", _, name, _, _, _] => s.isFifo name
   | ["fseqopen", _, name, _] => s.isFifo name
   | ["content", name] => s.isFifo name
   | ["readall", name] => s.isFifo name
@@ -117,6 +118,16 @@ def stepD (d : Driver) (s : St) (w : List String) : St × String :=
       let (s', o) := s.openFile h name (Gen.OpenFlags.openFlags r wr t c n)
       (s', showOut o)
     | _, _ => (s, "bad-op")
+  | ["openx", h, name, bits, custom, _mode] =>
+    -- `custom_flags(custom).mode(mode)`; answers the access mode of the descriptor (F_GETFL & O_ACCMODE)
+    match h.toNat?, parseBits bits, custom.toNat? with
+    | some h, some (r, wr, t, c, n), some custom =>
+      let fl := Gen.OpenFlags.openFlags r wr t c n
+      let (s', o) := s.openFileX h name fl custom
+      match o, fl with
+      | .ok, some fl => (s', s!"ok {(flagWord fl (keepCustom Gen.OpenFlags.customMasks custom)) % 4}")
+      | o, _ => (s', showOut o)
+    | _, _, _ => (s, "bad-op")
   | ["close", h] =>
     match h.toNat? with
     | some h =>
